@@ -335,6 +335,117 @@ func propC14Parse(t *rapid.T) {
 	c14.Sample("parse:"+label+":"+acc, 1, map[string]string{"input": s})
 }
 
+// propC14Pool is a state machine over a pool of keys that share ancestry (and possibly memory):
+// keys are created from seeds, parsed from strings, derived from pool members and neutered; after
+// every operation EVERY key of the pool must still equal its reference (operations on one key must
+// not disturb another - parsed keys and their descendants may share backing arrays).
+func propC14Pool(t *rapid.T) {
+	type ent struct {
+		got  *hdkeychain.ExtendedKey
+		want *ref.XKey
+		how  string
+	}
+	seed := rapid.SliceOfN(rapid.Byte(), 16, 64).Draw(t, "seed")
+	wm, rerr := ref.XMaster(seed)
+	gm, gerr := hdkeychain.NewMaster(seed, &config.ChainParams)
+	if rerr != nil || gerr != nil {
+		if (rerr == nil) != (gerr == nil) {
+			t.Fatalf("NewMaster(%x): err=%v reference err=%v", seed, gerr, rerr)
+		}
+		return
+	}
+	pool := []ent{{gm, wm, "m"}}
+	ops, parsed, strOnChildOfParsed := 0, 0, false
+	fromParsed := map[int]bool{}
+	check := func(after string) {
+		for i, e := range pool {
+			if err := cmpKey(fmt.Sprintf("key #%d (%s) after %s", i, e.how, after), e.got, e.want); err != nil {
+				t.Fatalf("seed %x: %v", seed, err)
+			}
+		}
+	}
+	t.Repeat(map[string]func(*rapid.T){
+		"child": func(t *rapid.T) {
+			if len(pool) >= 12 {
+				t.Skip("pool full")
+			}
+			pi := rapid.IntRange(0, len(pool)-1).Draw(t, "parent")
+			p := pool[pi]
+			i := idxGen().Draw(t, "idx")
+			if !p.want.Priv && i >= ref.H {
+				i -= ref.H
+			}
+			if p.want.Priv && i >= ref.H && p.want.K[0] == 0 && c14ExcludeShort {
+				c14.Excluded(1)
+				t.Skip("known class")
+			}
+			wc, werr := p.want.Child(i)
+			gc, gerr := p.got.Child(i)
+			if (werr == nil) != (gerr == nil) {
+				t.Fatalf("Child(%d) of %s: err=%v reference err=%v", i, p.how, gerr, werr)
+			}
+			if werr != nil {
+				return
+			}
+			pool = append(pool, ent{gc, wc, fmt.Sprintf("%s/%d", p.how, i)})
+			fromParsed[len(pool)-1] = fromParsed[pi]
+			ops++
+			check("Child")
+		},
+		"neuter": func(t *rapid.T) {
+			if len(pool) >= 12 {
+				t.Skip("pool full")
+			}
+			pi := rapid.IntRange(0, len(pool)-1).Draw(t, "key")
+			p := pool[pi]
+			n, err := p.got.Neuter()
+			if err != nil {
+				t.Fatalf("Neuter(%s): %v", p.how, err)
+			}
+			pool = append(pool, ent{n, p.want.Neuter(), "N(" + p.how + ")"})
+			fromParsed[len(pool)-1] = fromParsed[pi]
+			ops++
+			check("Neuter")
+		},
+		"string": func(t *rapid.T) {
+			pi := rapid.IntRange(0, len(pool)-1).Draw(t, "key")
+			p := pool[pi]
+			if got := p.got.String(); got != p.want.String() {
+				t.Fatalf("String(%s) = %s want %s", p.how, got, p.want.String())
+			}
+			if fromParsed[pi] {
+				strOnChildOfParsed = true
+			}
+			ops++
+			check("String of " + p.how)
+		},
+		"parse": func(t *rapid.T) {
+			if len(pool) >= 12 {
+				t.Skip("pool full")
+			}
+			pi := rapid.IntRange(0, len(pool)-1).Draw(t, "key")
+			p := pool[pi]
+			k, err := hdkeychain.NewKeyFromString(p.want.String())
+			if err != nil {
+				t.Fatalf("NewKeyFromString(%s): %v", p.want.String(), err)
+			}
+			pool = append(pool, ent{k, p.want, "parse(" + p.how + ")"})
+			fromParsed[len(pool)-1] = true
+			parsed++
+			ops++
+			check("NewKeyFromString")
+		},
+	})
+	labels := []string{fmt.Sprintf("pool:%d", len(pool))}
+	if parsed > 0 {
+		labels = append(labels, "pool-with-parsed-key")
+	}
+	if strOnChildOfParsed {
+		labels = append(labels, "string-of-key-descending-from-a-parsed-key")
+	}
+	c14.Case(hkey("pool", seed, ops, len(pool)), len(pool) >= 3, labels...)
+}
+
 func TestC14(t *testing.T) {
 	// known-finding reproducer first; the generator excludes the class only while it still fails
 	mismatch, desc := shortParentReproducer()
@@ -379,6 +490,7 @@ func TestC14(t *testing.T) {
 	})
 	t.Run("derive", rapid.MakeCheck(propC14Derive))
 	t.Run("parse", rapid.MakeCheck(propC14Parse))
+	t.Run("pool", rapid.MakeCheck(propC14Pool))
 }
 
 func FuzzC14(f *testing.F) {
